@@ -143,6 +143,7 @@ def _run_unit(modname, unit_name, tier, seed):
         res["extra"] = ctx.extra
         res["concrete"] = ctx.concrete
         res["functions"] = _source_hashes(unit.functions)
+        res["functions"].update(ctx.extra.pop("functions_dynamic", {}))
         res["path_log"] = [list(x) for x in ex.path_log[:400]]
     except Exception:
         # an engine error while following (possibly edited) source: the unit is undecided, never 'held';
